@@ -49,9 +49,10 @@ namespace rkcommon {
 
      private:
       // declaration before taskImpl: ensure initialization before task finishes
+      // (constructing taskImpl launches the task, which assigns retValue)
       std::atomic<bool> jobFinished{false};
-      detail::AsyncTaskImpl<std::function<void()>> taskImpl;
       T retValue;
+      detail::AsyncTaskImpl<std::function<void()>> taskImpl;
     };
 
   }  // namespace tasking
